@@ -8,6 +8,10 @@
 //	          client addresses through the real collectors; after every operation the registry
 //	          is gathered, written in the text exposition format and scanned for address
 //	          material in names, label names, label values and sample values.
+//	exposure-flows (E) every class of TCP connection (served, probes ending by EOF, timeout and
+//	          client reset, replays, refused / failing relays) x cipher through the real stream
+//	          handler on vnet into the real collectors; the same scan, plus the clients' ports
+//	          in label values.
 package c20
 
 import (
@@ -29,6 +33,7 @@ import (
 	"verif/engine"
 	"verif/harness/hk"
 	"verif/harness/promx"
+	"verif/harness/tcpx"
 	"verif/rt/vrt"
 )
 
@@ -465,8 +470,72 @@ func runExp(ctx *engine.Ctx, ec expCase) {
 	ctx.Record("exposure", "Q", fmt.Sprint(ec), true, int64(len(ec.Ops)), int64(len(ec.Ops)))
 }
 
+// ---- exposure through the real handler ----
+
+// flowSpecs: every class of TCP connection the handler distinguishes (served, probes that end by
+// EOF, by timeout and by a reset from the client, replays, bad and private destinations, refused
+// and failing relays), per cipher, through the real stream handler into the real collectors.
+func flowSpecs() []tcpx.Spec {
+	var out []tcpx.Spec
+	for c := 0; c < 4; c++ {
+		for _, cl := range []string{"ok", "cipher", "cipher-rst", "empty", "bad-addr", "private", "refused", "relay-client", "relay-target", "client-abort", "target-abort", "stall"} {
+			out = append(out, tcpx.Spec{RealMetrics: true, Conns: []tcpx.ConnSpec{{Class: cl, Cipher: c, Up: 10, Down: 10}}})
+		}
+		out = append(out, tcpx.Spec{RealMetrics: true, Cache: 10, Conns: []tcpx.ConnSpec{{Class: "ok", Cipher: c, Up: 10, Down: 10}, {Class: "replay-client", Cipher: c, Up: 10, Down: 10}, {Class: "cipher-rst", Cipher: c, Var: 3}}})
+		out = append(out, tcpx.Spec{RealMetrics: true, Conns: []tcpx.ConnSpec{{Class: "ok", Cipher: c, Up: 10, Down: 100}, {Class: "replay-server", Cipher: c}}})
+	}
+	return out
+}
+
+func flowScenario(s tcpx.Spec) *engine.Scenario {
+	o := &tcpx.Obs{}
+	body := tcpx.Build(s, o, func() service.ServiceMetrics {
+		m, err := outline_prometheus.NewServiceMetrics(&recDB{mode: "hit"})
+		if err != nil {
+			panic(err)
+		}
+		return m
+	})
+	sc := &engine.Scenario{Name: "exposure-flows" + s.String(), Body: body, Opt: vrt.Options{Horizon: 24 * time.Hour}}
+	sc.Check = func(x *vrt.Exec) (string, bool, []*engine.Finding) {
+		fs := hk.Generic(x, hk.Opts{})
+		if len(fs) > 0 || o.Metrics == nil {
+			return "generic", true, fs
+		}
+		smx := o.Metrics.(prometheus.Collector)
+		if sig, msg := scan(smx); sig != "" {
+			fs = append(fs, &engine.Finding{Sig: sig, Msg: msg + " spec=" + s.String()})
+			return sig, true, fs
+		}
+		samples, _, _ := promx.Gather(smx)
+		obs := ""
+		for _, co := range o.Conns {
+			if co == nil || co.Rec == nil {
+				continue
+			}
+			_, port, _ := net.SplitHostPort(co.Rec.Remote)
+			obs += co.Rec.Status() + ";"
+			for _, m := range samples {
+				for k, v := range m.Labels {
+					if k != "le" && port != "" && strings.Contains(v, port) {
+						fs = append(fs, &engine.Finding{Sig: "address-exposed{port}", Msg: fmt.Sprintf("metric %s label %s=%q contains the port of client %s spec=%s", m.Name, k, v, co.Rec.Remote, s.String())})
+						return obs, true, fs
+					}
+				}
+			}
+		}
+		return obs + fmt.Sprint(len(samples)), true, fs
+	}
+	return sc
+}
+
 func init() {
 	hk.Register("C20", func(ctx *engine.Ctx) {
+		for i, s := range flowSpecs() {
+			if ctx.Mine(int64(i)) {
+				ctx.RunCase("exposure-flows", "E", flowScenario(s), s, nil)
+			}
+		}
 		for i, lc := range locCases() {
 			if ctx.Mine(int64(i)) {
 				lc := lc
@@ -519,6 +588,14 @@ func init() {
 	})
 	hk.Replayers["C20"] = func(ctx *engine.Ctx, rp engine.Replay) []*engine.Finding {
 		sub := &engine.Ctx{Res: engine.NewResult("C20", ctx.Tier)}
+		if rp.Unit == "exposure-flows" {
+			var s tcpx.Spec
+			if err := json.Unmarshal(rp.Input, &s); err != nil {
+				return []*engine.Finding{{Sig: "BROKEN:bad-input", Msg: err.Error()}}
+			}
+			rp.Choices = nil
+			return engine.ReplayCase("exposure-flows", flowScenario(s), rp)
+		}
 		if rp.Unit == "loc-table" {
 			var lc locCase
 			json.Unmarshal(rp.Input, &lc)
